@@ -281,15 +281,12 @@ class Engine:
         sw, dw = s.width(sty), s.width(dty)
         if op in ('ptrtoint', 'inttoptr', 'zext', 'trunc'):
             if dw == sw: return v
-            aa = alts_of(v)
-            if aa is not None: return mk_gv([(g, mask(x, dw)) for g, x in aa], dw)
-            vz = Z(v, sw)
-            if z3.is_bool(vz): vz = z3.If(vz, z3.BitVecVal(1, 1), z3.BitVecVal(0, 1))
-            return z3.ZeroExt(dw - sw, vz) if dw > sw else z3.Extract(dw - 1, 0, vz)
+            def fz(x):
+                if z3.is_bool(x): x = z3.If(x, bvval(1, 1), bvval(0, 1))
+                return z3.ZeroExt(dw - sw, x) if dw > sw else z3.Extract(dw - 1, 0, x)
+            return mapv(v, lambda x: mask(x, dw), fz, dw)
         if op == 'sext':
-            aa = alts_of(v)
-            if aa is not None: return mk_gv([(g, mask(tosigned(x, sw), dw)) for g, x in aa], dw)
-            return z3.SignExt(dw - sw, Z(v, sw))
+            return mapv(v, lambda x: mask(tosigned(x, sw), dw), lambda x: z3.SignExt(dw - sw, x), dw)
         raise Unsupported('cast ' + op)
     def gep(s, bty, base, idx, itys):
         off_c = 0; ty = bty; res = base; first = True
@@ -583,8 +580,7 @@ class Engine:
             names = [(True, I.callee.name)]
         else:
             fp = s.val(f, I.callee) if I.callee.kind == 'local' else s.const(I.callee)
-            al = alts_of(fp)
-            if al is None: al = deep_alts(fp)
+            al = deep_alts(fp)
             names = []
             for gg, a in al:
                 if a not in s.addr2f:
@@ -627,7 +623,7 @@ class Engine:
     def unwind(s, t, ctrl, g):
         """ctrl's top frame is a call/invoke in progress; find the handler for the in-flight exception"""
         st = s.tstate[t]; res = []
-        for gti, ti in (alts_of(st.get('exc_ti', 0)) or [(True, None)]):
+        for gti, ti in s.ia(st.get('exc_ti', 0), g, 'exception type'):
             gg = gand(g, gti)
             if gg is False: continue
             c = ctrl; found = False
@@ -650,6 +646,13 @@ class Engine:
             if not found:
                 s.add_check(gg, 'uncaught exception: std::terminate', 'assert')
         return res
+    def ia(s, v, g, what):
+        """integer alternatives of v; symbolic leaves are reported as engine limits"""
+        out = []
+        for gg, x in deep_alts(v):
+            if x is None: s.add_check(gand(g, gg), 'ENGINE-LIMIT symbolic ' + what, 'limit')
+            else: out.append((gg, x))
+        return out
     def caught_base(s, t):
         st = s.tstate[t]
         if 'caught' not in st:
@@ -658,7 +661,7 @@ class Engine:
         return st['caught']
     def exc_release(s, obj, g, what):
         """drop one reference of exception object(s) obj (value); free at zero"""
-        for go, o in (alts_of(obj) or []):
+        for go, o in s.ia(obj, g, 'exception object'):
             gg = gand(g, go)
             if gg is False or o == 0: continue
             r = s.mem.region_of(o)
@@ -671,7 +674,7 @@ class Engine:
                 if r.freed is not False: s.add_check(gand(z, r.freed), 'double free of exception object', 'mem')
                 r.freed = gor(r.freed, z)
     def exc_addref(s, obj, g):
-        for go, o in (alts_of(obj) or []):
+        for go, o in s.ia(obj, g, 'exception object'):
             gg = gand(g, go)
             if gg is False or o == 0: continue
             r = s.mem.region_of(o)
@@ -775,7 +778,7 @@ class Engine:
             if nm.startswith(('llvm.ctlz', 'llvm.cttz', 'llvm.ctpop', 'llvm.bswap', 'llvm.fshl', 'llvm.fshr')):
                 a = A(0); w = s.width(I.rty)
                 al = alts_of(a)
-                if al is None: raise Unsupported(nm + ' on symbolic value')
+                if not all(isinstance(x, int) for _, x in al): raise Unsupported(nm + ' on symbolic value')
                 def fn(x):
                     if 'ctpop' in nm: return bin(x).count('1')
                     if 'ctlz' in nm: return w - x.bit_length()
@@ -797,7 +800,7 @@ class Engine:
             n = A(0)
             if not isinstance(n, int):
                 al = alts_of(n)
-                if al is None: raise Unsupported('symbolic allocation size in ' + f.name)
+                if not all(isinstance(x, int) for _, x in al): raise Unsupported('symbolic allocation size in ' + f.name)
                 n = max(x for _, x in al)
             a = s.mem.alloc(n, 'heap', 'heap#%d@%s' % (len(s.mem.regions), f.name[:50]), False, tid=t)
             r = s.mem.regions[-1]; r.live = g
@@ -817,11 +820,11 @@ class Engine:
             ret(s.input('in!%d' % i, s.width(I.rty))); return
         if nm == 'vf_enum':        # concretise a bounded symbolic value into guarded alternatives
             x, n = A(0), A(1); w = s.width(I.rty)
-            if alts_of(x) is not None: ret(x); return
+            if all(isinstance(y, int) for _, y in alts_of(x)): ret(x); return
             s.assume(gor(gnot(g), z3.ULT(x, z3.BitVecVal(n, w))))
             ret(GV([(name(x == z3.BitVecVal(i, w)), i) for i in range(n)], w)); return
         if nm == 'vf_witness':
-            for gi, i in (alts_of(A(0)) or []):
+            for gi, i in s.ia(A(0), g, 'witness id'):
                 s.witness[i] = gor(s.witness.get(i, False), gand(g, gi))
             return
         if nm == 'vf_observe':
@@ -962,7 +965,7 @@ class Engine:
             s.mem.mem[a] = (8, 0); s.mem.mem[a + 8] = (8, 0); s.mem.mem[a + 16] = (8, 0)
             ret(a + EXC_HDR); return
         if nm == '__cxa_free_exception':
-            for go, o in alts_of(A(0)):
+            for go, o in s.ia(A(0), g, 'exception object'):
                 r = s.mem.region_of(o)
                 if r is not None: r.freed = gor(r.freed, gand(g, go))
             return
@@ -981,14 +984,14 @@ class Engine:
             o = A(0)
             if nm == '__cxa_begin_catch':
                 cb = s.caught_base(t); d = s.mem.load1(cb, 8)
-                for gd, dv in alts_of(d):
+                for gd, dv in s.ia(d, g, 'caught depth'):
                     if dv >= 6: s.add_check(gand(g, gd), 'ENGINE-LIMIT caught-exception stack overflow', 'limit'); continue
                     s.mem.store1(cb + 8 + 8 * dv, 8, o, gand(g, gd))
                 s.mem.store1(cb, 8, binop('add', d, 1, 64), g)
             ret(o); return
         if nm == '__cxa_end_catch':
             cb = s.caught_base(t); d = s.mem.load1(cb, 8)
-            for gd, dv in alts_of(d):
+            for gd, dv in s.ia(d, g, 'caught depth'):
                 gg = gand(g, gd)
                 if gg is False: continue
                 if dv == 0: s.add_check(gg, '__cxa_end_catch without a caught exception', 'assert'); continue
@@ -998,7 +1001,7 @@ class Engine:
             return
         if nm == '__cxa_rethrow':
             cb = s.caught_base(t); d = s.mem.load1(cb, 8); res = []
-            for gd, dv in alts_of(d):
+            for gd, dv in s.ia(d, g, 'caught depth'):
                 gg = gand(g, gd)
                 if gg is False: continue
                 if dv == 0: s.add_check(gg, '__cxa_rethrow without a caught exception', 'assert'); continue
@@ -1006,13 +1009,13 @@ class Engine:
                 s.exc_addref(o, gg)
                 s.tset(t, 'exc_obj', o, gg, 64)
                 ti = 0
-                for go, ov in alts_of(o): ti = ite(go, s.mem.load1(ov - EXC_HDR + 8, 8), ti, 64) if ov else ti
+                for go, ov in s.ia(o, g, 'exception object'): ti = ite(go, s.mem.load1(ov - EXC_HDR + 8, 8), ti, 64) if ov else ti
                 s.tset(t, 'exc_ti', ti, gg, 64)
                 res += s.unwind(t, ctrl, gg)
             return res
         if nm == '_ZSt17current_exceptionv':
             cb = s.caught_base(t); d = s.mem.load1(cb, 8); sret = A(0); o = 0
-            for gd, dv in alts_of(d):
+            for gd, dv in s.ia(d, g, 'caught depth'):
                 if dv > 0: o = ite(gd, s.mem.load1(cb + 8 * dv, 8), o, 64)
             s.exc_addref(o, g); s.mem.store(sret, 8, o, g, 'current_exception'); return
         if nm == '_ZNSt15__exception_ptr13exception_ptr9_M_addrefEv':
@@ -1026,7 +1029,7 @@ class Engine:
             o = s.mem.load(A(0), 8, g, 'rethrow_exception') if not isinstance(s.L.res(I.args[0].ty), TInt) else A(0)
             s.exc_addref(o, g)
             ti = 0
-            for go, ov in (alts_of(o) or []):
+            for go, ov in s.ia(o, g, 'exception object'):
                 if ov == 0: s.add_check(gand(g, go), 'rethrow_exception(null)', 'assert'); continue
                 ti = ite(go, s.mem.load1(ov - EXC_HDR + 8, 8), ti, 64)
             s.tset(t, 'exc_obj', o, g, 64); s.tset(t, 'exc_ti', ti, g, 64)
